@@ -62,3 +62,31 @@ contract(f"{C}::AllowAllValidator.__call__", props=["C05", "C11"], ensures=[("al
 contract(f"{C}::_CombinedValidator.__call__", props=["C05", "C11"],
          ensures=[("conjunction", "result == forall(j, 0, len(self.validators), validator_ok(self.validators[j], seq(request), seq(context), epoch()))")],
          modifies=[])
+
+# ---- the mask itself (C11: "for every entry of the action map (not only the one executed)") -------------------------
+from pyvc.contracts import attr_types  # noqa: E402
+G = "src/primaite/game/game.py"
+AM = "src/primaite/game/agent/actions/manager.py"
+attr_types({"Simulation._request_manager": "RequestManager", "SimComponent._request_manager": "RequestManager"})
+# the request an action map entry stands for: a function of the action manager and the entry (form_request is pure)
+ufun("form_req", 3, "any")
+contract(f"{AM}::ActionManager.form_request", verify=False,
+         note="pure translation of an action map entry into a request (the per-action templates are straight-line list builders)",
+         ensures=["seq(result) == form_req(self, action_identifier, action_options)", "fresh(result)"], modifies=[], allocates=True)
+contract(f"{G}::PrimaiteGame.action_mask", props=["C11"], bounded=3,
+         # ActionManager.ConfigSchema.consecutive_action_nums: the keys of an action map are exactly 0..N-1
+         requires=["agent_name in self.agents",
+                   "forall(j, 0, len(self.agents[agent_name].action_manager.action_map),"
+                   " 0 <= dict_key(self.agents[agent_name].action_manager.action_map, j)"
+                   " and dict_key(self.agents[agent_name].action_manager.action_map, j) < len(self.agents[agent_name].action_manager.action_map))"],
+         ensures=[("one_bit_per_action", "len(result) == len(self.agents[agent_name].action_manager.action_map)"),
+                  ("bit_i_is_action_i", "forall(j, 0, len(self.agents[agent_name].action_manager.action_map),"
+                                        " result[dict_key(self.agents[agent_name].action_manager.action_map, j)] == (resolve(self.simulation._request_manager,"
+                                        " form_req(self.agents[agent_name].action_manager, dict_val(self.agents[agent_name].action_manager.action_map, j)[0],"
+                                        " dict_val(self.agents[agent_name].action_manager.action_map, j)[1]), seq({}), epoch()) == 2))")],
+         modifies=[], allocates=True,
+         loops={0: {"inv": [("length", "len(mask) == len(agent.action_manager.action_map) and fresh(mask)"),
+                            ("done_so_far", "forall(j, 0, _i, mask[dict_key(agent.action_manager.action_map, j)] == (resolve(self.simulation._request_manager,"
+                                            " form_req(agent.action_manager, dict_val(agent.action_manager.action_map, j)[0], dict_val(agent.action_manager.action_map, j)[1]),"
+                                            " seq({}), epoch()) == 2))")],
+                    "modifies": ["mask[*]"]}})
